@@ -4,7 +4,7 @@
   absent / parsed value / unparsable, cache file, session cache); `json.loads` is a parameter
   (the harness reports which of the three a damaged file is).
 -/
-import Signac.Proofs.CacheRepair
+import Signac.Proofs.CacheRepairRename
 namespace Signac.C09
 open Signac Signac.Ws Signac.Cache
 
@@ -114,5 +114,123 @@ example :
     (check (fun v => canonText v) s).length = 2 ∧
     (repair (fun v => canonText v) s).2 = [] ∧
     check (fun v => canonText v) (repair (fun v => canonText v) s).1 = [] := by decide
+
+/- ---------- the rename route of repair() ---------- -/
+
+/-- A single renamed directory as the loop of repair() meets it (cache just read): directory `id`
+    holds an intact state point file with a mapping whose hash is `id' ≠ id`, the cache (session ∪
+    cache file) does not know `id`, and `id'` is not listed.  Then `id` is not reported, it is no
+    longer listed, `id'` is listed with the same state point file and the same payload (documents
+    and data moved along untouched), and every other entry is unchanged.  (Holds for any state:
+    neither the cache invariant nor duplicate-freeness of the listing is needed.) -/
+theorem repair_rename_one (s : St) (id id' : String) (d : Dir) (kvs : List (String × JVal))
+    (hd : alookup id s.ws = some d) (hsp : d.sp = .valid (.obj kvs))
+    (hh : hash (.obj kvs) = id') (hne : id' ≠ id) (hfree : id' ∉ K s.ws)
+    (hunk : alookup id (readCache s).session = none) :
+    (repairOne hash (readCache s) id).2 = false ∧
+    (repairOne hash (readCache s) id).1.ws = aerase id s.ws ++ [(id', d)] ∧
+    alookup id (repairOne hash (readCache s) id).1.ws = none ∧
+    (∃ d', alookup id' (repairOne hash (readCache s) id).1.ws = some d' ∧
+        d'.sp = .valid (.obj kvs) ∧ d'.payload = d.payload) ∧
+    (∀ j, j ≠ id → j ≠ id' →
+        alookup j (repairOne hash (readCache s) id).1.ws = alookup j s.ws) :=
+  Cache.repair_rename_one s id id' d kvs hd hsp hh hne hfree hunk
+
+/-- The hypothesis "destination free" matters: if `id'` is occupied by a non-empty directory, `id`
+    is reported as corrupted and no directory changes. -/
+theorem repair_rename_blocked (s : St) (id id' : String) (d d2 : Dir) (kvs : List (String × JVal))
+    (hd : alookup id s.ws = some d) (hsp : d.sp = .valid (.obj kvs))
+    (hh : hash (.obj kvs) = id') (hne : id' ≠ id)
+    (hocc : alookup id' s.ws = some d2) (hfull : dirEmpty d2 = false)
+    (hunk : alookup id (readCache s).session = none) :
+    (repairOne hash (readCache s) id).2 = true ∧ (repairOne hash (readCache s) id).1.ws = s.ws :=
+  Cache.repair_rename_blocked s id id' d d2 kvs hd hsp hh hne hocc hfull hunk
+
+/-- ... whereas an EMPTY directory at `id'` (no state point file, no payload) is simply replaced. -/
+theorem repair_rename_onto_empty (s : St) (id id' : String) (d d2 : Dir) (kvs : List (String × JVal))
+    (hd : alookup id s.ws = some d) (hsp : d.sp = .valid (.obj kvs))
+    (hh : hash (.obj kvs) = id') (hne : id' ≠ id)
+    (hocc : alookup id' s.ws = some d2) (hempty : dirEmpty d2 = true)
+    (hunk : alookup id (readCache s).session = none) :
+    (repairOne hash (readCache s) id).2 = false ∧
+    (repairOne hash (readCache s) id).1.ws = aset id' d (aerase id s.ws) :=
+  Cache.repair_rename_onto_empty s id id' d d2 kvs hd hsp hh hne hocc hempty hunk
+
+/-- The whole of repair(), any number of jobs.  `Repairable hash s` (decidable) says: every listed
+    directory is known to the cache (session ∪ cache file) or holds an intact mapping — which then
+    hashes to the directory name (intact job) or to another id (renamed job); the destination of a
+    renamed directory is not a listed id; no two directories have the same destination.
+    `dest hash (readCache s).session e` is the destination of entry `e`: its own id if the cache
+    knows it, else the hash of the mapping in its state point file.
+    Then repair() reports nothing, check() passes afterwards, and the result lists exactly the
+    directories of the start — name/payload pairs are a permutation of destination/payload pairs,
+    names are duplicate-free — so every payload appears exactly once, for a renamed directory under
+    the hash of its own state point and for every other under its old id, in a directory that
+    validates. -/
+theorem repair_restores_renamed (s : St) (hc : CacheInv hash s) (hnd : (K s.ws).Nodup)
+    (hR : Repairable hash s) :
+    (repair hash s).2 = [] ∧ check hash (repair hash s).1 = [] ∧
+    (K (repair hash s).1.ws).Nodup ∧
+    ((repair hash s).1.ws.map pay).Perm
+      (s.ws.map fun e => (dest hash (readCache s).session e, e.2.payload)) ∧
+    (∀ e, e ∈ s.ws → ∃ d', alookup (dest hash (readCache s).session e) (repair hash s).1.ws = some d' ∧
+        d'.payload = e.2.payload ∧ (loadValid hash d' (dest hash (readCache s).session e)).isSome = true) :=
+  Cache.repair_restores_renamed s hc hnd hR
+
+/-- `dest` spelled out for the three kinds of directory. -/
+theorem dest_known (sess : List (String × JVal)) (id : String) (d : Dir)
+    (h : (alookup id sess).isSome = true) : dest hash sess (id, d) = id := by
+  simp [dest, h]
+
+theorem dest_unknown (sess : List (String × JVal)) (id : String) (d : Dir) (kvs : List (String × JVal))
+    (h : alookup id sess = none) (hsp : d.sp = .valid (.obj kvs)) :
+    dest hash sess (id, d) = hash (.obj kvs) := by
+  simp [dest, h, spObj, hsp]
+
+/- non-vacuity of repair_restores_renamed: two jobs, `a` intact, `b` in a directory renamed to
+   "moved" (an id the cache does not know); the cache file lists the two original ids. -/
+def renameWitness : St :=
+  let a : JVal := .obj [("a", .int 1)]
+  let b : JVal := .obj [("b", .str "x")]
+  { ws := [(canonText a, ⟨.valid a, 1⟩), ("moved", ⟨.valid b, 2⟩)],
+    cacheFile := some [(canonText a, a), (canonText b, b)],
+    session := [], cacheRead := false, nextPayload := 3 }
+
+example : CacheInv (fun v => canonText v) renameWitness := by
+  refine ⟨fun _ _ hm => by simp [renameWitness] at hm, fun c hc => ?_⟩
+  simp only [renameWitness, Option.some.injEq] at hc
+  subst hc
+  intro id v hm
+  simp only [List.mem_cons, Prod.mk.injEq, List.mem_nil_iff, or_false] at hm
+  rcases hm with ⟨rfl, rfl⟩ | ⟨rfl, rfl⟩ <;> rfl
+
+example :
+    let h : JVal → String := fun v => canonText v
+    Repairable h renameWitness ∧ (K renameWitness.ws).Nodup ∧
+    check h renameWitness = ["moved"] ∧
+    (repair h renameWitness).2 = [] ∧
+    check h (repair h renameWitness).1 = [] ∧
+    (repair h renameWitness).1.ws.map pay =
+      [(canonText (.obj [("a", .int 1)]), 1), (canonText (.obj [("b", .str "x")]), 2)] := by decide
+
+/- the negative side on a concrete project: the original directory of `b` still exists (with data),
+   next to the renamed copy; repair() reports "moved" and leaves the listing alone. -/
+example :
+    let h : JVal → String := fun v => canonText v
+    let b : JVal := .obj [("b", .str "x")]
+    let s : St := { ws := [(canonText b, ⟨.valid b, 1⟩), ("moved", ⟨.valid b, 2⟩)],
+                    cacheFile := none, session := [], cacheRead := false, nextPayload := 3 }
+    ¬ Repairable h s ∧ (repair h s).2 = ["moved"] ∧
+    (repair h s).1.ws.map pay = s.ws.map pay := by decide
+
+/- Why `Repairable` asks an unknown directory to hold a MAPPING rather than merely to validate:
+   in the model a directory whose state point file parses to a non-mapping value hashing to the
+   directory name passes check() but is reported by repair() (`_get_statepoint(validate=False)`
+   yields nothing for it). -/
+example :
+    let h : JVal → String := fun v => canonText v
+    let s : St := { ws := [(canonText (.int 1), ⟨.valid (.int 1), 1⟩)],
+                    cacheFile := none, session := [], cacheRead := false, nextPayload := 2 }
+    check h s = [] ∧ (repair h s).2 = [canonText (.int 1)] := by decide
 
 end Signac.C09
